@@ -1676,7 +1676,14 @@ class PyCdlib:
                                        self.eltorito_boot_catalog.validation_entry.platform_id)
 
             num_seen_efi = 0
+            seen_entries = set()  # type: Set[int]
             for enc in enc_to_update:
+                # A boot file with several names gives several
+                # encapsulations of one entry; only the first one counts.
+                if id(enc.entry) in seen_entries:
+                    continue
+                seen_entries.add(id(enc.entry))
+
                 # An entry whose data was already placed with an earlier
                 # entry (two entries booting one file) still describes a
                 # partition of the hybridization.
